@@ -334,7 +334,10 @@ ALWAYS_URL = [
 ]
 
 
-def campaign_kv_three_ways(ck: Check, rn, extra_cases: list[dict] | None = None, name: str | None = None) -> None:
+def campaign_kv_three_ways(ck: Check, rn, extra_cases: list[dict] | None = None, name: str | None = None, background: bool = False):
+    """`background=True`: the child processes are collected in a thread (the three ways of a loopback case run one
+    after the other, which would otherwise idle the pool); the returned callable joins and JUDGES (in the caller's
+    thread, so that the order of recorded failures stays deterministic)."""
     from . import c18 as base
 
     camp = ck.campaign(name or "e2e: --http-headers / --http-query-parameters whose VALUE contains the separator, blanks, quotes, non-ASCII: "
@@ -353,14 +356,38 @@ def campaign_kv_three_ways(ck: Check, rn, extra_cases: list[dict] | None = None,
         except OSError as e:
             camp.hit(f"loopback-server-unavailable:{type(e).__name__}")
             cases = [c for c in cases if not c.get("url")]
-    try:
-        results = pmap(lambda ic: kv_three_ways(rn, ic[1], loop, f"c{ic[0]}"), list(enumerate(cases)), workers=6)
-    finally:
-        if loop:
-            loop.close()
-    for case, res in zip(cases, results):
-        kv_judge(ck, camp, rn, case, res)
-    camp.wall_s = time.time() - t0
+    box: dict = {}
+
+    def collect() -> None:
+        try:
+            box["results"] = pmap(lambda ic: kv_three_ways(rn, ic[1], loop, f"c{ic[0]}"), list(enumerate(cases)), workers=6)
+        except Exception as e:  # noqa: BLE001
+            box["error"] = f"{type(e).__name__}: {e}"
+        finally:
+            if loop:
+                loop.close()
+            box["wall"] = time.time() - t0
+
+    def finish() -> None:
+        if "error" in box:
+            ck.infra_errors.append("kv three ways: " + box["error"])
+            return
+        for case, res in zip(cases, box["results"]):
+            kv_judge(ck, camp, rn, case, res)
+        camp.wall_s = box["wall"]
+
+    if not background:
+        collect()
+        finish()
+        return None
+    th = threading.Thread(target=collect, daemon=True)
+    th.start()
+
+    def join_and_finish() -> None:
+        th.join()
+        finish()
+
+    return join_and_finish
 
 
 # ---------------------------------------------------------------- (3) the same options through a history of main() calls
